@@ -8,7 +8,7 @@
    in the entry's own format.  PARTIAL: the composition of (1)-(4) for NESTED histories and for -sf mode is carried by
    the lockstep correspondence, not by a theorem. *)
 From Coq Require Import Permutation.
-From MHL Require Import Model.Commands Proofs.BaseFacts Proofs.TreeFacts Proofs.RouteFacts Proofs.SealFacts Proofs.CreateFacts Proofs.SfFacts Proofs.PartitionFacts Proofs.NestedRecFacts.
+From MHL Require Import Model.Commands Proofs.BaseFacts Proofs.TreeFacts Proofs.RouteFacts Proofs.SealFacts Proofs.CreateFacts Proofs.SfFacts Proofs.PartitionFacts Proofs.NestedRecFacts Proofs.SfNestedFacts.
 
 (* (0) the composed command, flat history: the new generation records exactly the tree *)
 Theorem C02_create_records_exactly_the_tree : forall Hb matches C cdig ser (t : node C) h0 req no_dh ip ifl,
@@ -106,3 +106,18 @@ Theorem C02_nested_generations_record_exactly_their_share : forall Hb matches C 
     forall q, In q (map r_path (g_records doc)) <-> exists e, In e (events matches C spec [] (Dir h0 kids)) /\ ev_adds hs e k q.
 Proof. exact create_folder_records. Qed.
 Print Assumptions C02_nested_generations_record_exactly_their_share.
+
+(* -sf over ANY nesting, end to end: every generation the run writes belongs to a loaded history k and holds records at
+   exactly the k-relative paths of the named files (a named folder stands for the visible files beneath it) whose deepest
+   enclosing history is k -- every such file, and nothing else *)
+Theorem C02_nested_sf_records_exactly_the_named_files : forall Hb matches C cdig ser h0 kids hs req sf ip ifl t' o,
+  wf_tree C (Dir h0 kids) -> load C cdig (Dir h0 kids) = inl hs -> req <> [] ->
+  create_sf Hb matches C cdig ser (Dir h0 kids) req sf ip ifl = (t', o) ->
+  let spec := set_patterns (latest_patterns (lh_gens (root_hist hs))) ip (pattern_file_lines ifl) in
+  let files := flat_map (sf_files matches C spec (Dir h0 kids)) sf in
+  forall k doc, In (k, doc) (o_written o) ->
+    (exists h, In h hs /\ lh_root h = k) /\
+    forall q, In q (map r_path (g_records doc)) <->
+              exists p c, In (p, c) files /\ lh_root (route_to hs p) = k /\ strip_prefix k p = q.
+Proof. exact create_sf_nested_records. Qed.
+Print Assumptions C02_nested_sf_records_exactly_the_named_files.
